@@ -371,3 +371,34 @@ def run_lifecycle_case(prog, params):
     res.inconclusive += inc
     res.evals = res.stats.paths
     return res
+
+
+def run_hostile_dir_case(prog, params):
+    """C13: directory content found on disk (a non-UTF-8 file name created behind the library's back) must not
+    make PhysicalFS panic"""
+    res = CaseResult()
+    res.states = 1
+    name = params['name']
+
+    def h(ex):
+        findings = []
+        sr = ScriptRunner(ex)
+        sr.do('fs R phys')
+        sr.do('join d R %s' % hx(b'd'))
+        sr.do('create_dir d')
+        sr.do('rawfile R %s' % hx(name))
+        for line in ['read_dir R', 'walk_dir R', 'exists d', 'read_dir d', 'remove_dir_all d', 'remove_dir_all R']:
+            sr.do(line)
+            o = sr.last
+            if o is not None and o.tag in ('panic', 'deadlock'):
+                findings.append(make_finding('C13', 'phys|hostile_name|%s|panic:%s' % (line.split()[0], o.where or '?'),
+                                             '`%s` panics when the directory holds a file whose name is %r: %s' % (line, name, o.msg), sr))
+                break
+        if not res.samples:
+            res.samples.append({'raw_name': repr(name), 'script': [l for l, _ in sr.log]})
+        return findings
+    fs, inc = explore(prog, h, res.stats)
+    res.findings += fs
+    res.inconclusive += inc
+    res.evals = res.stats.paths
+    return res
